@@ -206,6 +206,20 @@ def check(a):
             excluded[res[1]] = excluded.get(res[1], 0) + g['count']
         else:
             violations.append(('%s|%s|%s' % (prop, key[0], key[1]), res))
+    # thorough C11: independent cross-check of the A/B oracle with valgrind memcheck on the un-instrumented build
+    vg = None
+    if prop == 'C11' and tier == 'thorough':
+        import valgrind_check
+        vg = {}
+        for vmode, vn in (('c11', 640), ('trunc', 640), ('fields', 640)):
+            r = valgrind_check.crosscheck(vn, vmode, seed)
+            if r is None:
+                continue
+            vg[vmode] = dict(plans=r[0], reports_inside_image_libraries=r[1], gil_side_findings=len(r[2]))
+            for (kind, site), cnt in sorted(r[2].items()):
+                doc = dict(engine='iosim', property=prop, kind='valgrind', mode=vmode, plans=vn, seed=seed,
+                           signature='%s|valgrind|%s|%s' % (prop, kind, site), violation=dict(cls='valgrind:' + kind, site=site, detail='x%d' % cnt))
+                violations.append((doc['signature'], simlib.save_replay(prop, doc['signature'], doc)))
     wall = time.time() - t0
     level = 'fault_enumeration' if prop == 'C11' else 'exploration'
     cov = dict(
@@ -227,7 +241,8 @@ def check(a):
         components=dict(real=['all of boost::gil io (readers, writers, devices)', 'glibc stdio over fopencookie', 'libstdc++ iostreams over sim::Streambuf',
                               'system libpng / libjpeg / libtiff / zlib (uninstrumented)'],
                         stubbed=['kernel file layer (sim::Disk + sim::Channel)', 'global operator new (4 MiB cap + poison fill)']),
-        known_findings_hit=known_hit, excluded_third_party=excluded, skipped_chunks_at_deadline=skipped)
+        known_findings_hit=known_hit, excluded_third_party=excluded, skipped_chunks_at_deadline=skipped,
+        valgrind_crosscheck=vg)
     simlib.write_evidence(prop, tier, seed, level, cov, wall, len(violations),
                           ['ASan/UBSan observe only instrumented code (gil headers + harness); libpng/libjpeg/libtiff are uninstrumented shared objects',
                            'sanitizer reports whose access and allocation stacks contain no gil frame are excluded as third-party',
@@ -303,6 +318,15 @@ def replay(a, doc):
         return 0
     if rc is not None:
         return rc
+    if doc.get('kind') == 'valgrind':
+        import valgrind_check
+        r = valgrind_check.crosscheck(doc['plans'], doc['mode'], doc['seed'])
+        hit = r is not None and any('valgrind:' + k == doc['violation']['cls'] and s_ == doc['violation']['site'] for (k, s_) in r[2])
+        if hit:
+            print('VIOLATION property=%s replay=%s' % (prop, a.replay))
+            return 1
+        print('did not reproduce')
+        return 0
     v = run_ab(doc['plan'])
     if v is not None and v['cls'] == doc['violation']['cls'] and v['site'] == doc['violation']['site']:
         print('reproduced: %s at %s: %s' % (v['cls'], v['site'], v.get('detail', '')))
